@@ -21,7 +21,7 @@ LEVEL = 'exploration'
 RULE = ('byte streams = encodings of texts mixing 1/2/3/4-byte characters, BOMs and combining marks (for replace/ignore '
         'also invalid sequences, only for codecs whose incremental decoder is defined to agree with one-shot decoding) x '
         'split points: EVERY byte offset, up to 3 cuts, for streams <= 12 bytes (enumerated), random cuts beyond x '
-        'encodings x codec_errors x transports {fd/pipe, socket, asyncio data_received, asyncio event loop, pty child, '
+        'encodings x codec_errors x transports {fd/pipe, socket, asyncio data_received, asyncio event loop, one object read alternately through the event loop and the blocking path, pty child, '
         'popen child}. The text delivered (concatenated read_nonblocking results, before after the final TIMEOUT/EOF, '
         'logfile_read) must equal bytes.decode(encoding, errors) of the whole stream; bytes mode must pass bytes through. '
         'non-trivial = some cut falls inside a multi-byte character (or inside an invalid sequence); distinct by '
@@ -31,7 +31,7 @@ ASSUMPTIONS = ['one-shot bytes.decode of the standard library is the definition 
                '(the BOM-sniffing utf-16/utf-32 incremental decoders legitimately differ from one-shot decoding on garbage)',
                'the stream never ends inside a character']
 REQUIRED = ['splittings', 'cuts_inside_character', 'transport_fd', 'transport_socket', 'transport_async_direct',
-            'transport_async_loop', 'transport_pty', 'transport_popen', 'log_compared', 'bytes_mode_cases']
+            'transport_async_loop', 'transport_mixed_loop', 'transport_pty', 'transport_popen', 'log_compared', 'bytes_mode_cases']
 
 CODECS = ['utf-8', 'utf-16', 'utf-16-le', 'utf-32', 'latin-1', 'cp1252', 'shift_jis', 'euc_jp', 'gb18030', 'utf-8-sig',
           'utf-16-be', 'utf-32-be', 'big5']
@@ -202,10 +202,11 @@ def run_async_direct(pieces, enc, errors, use_expect):
         log = Log(str if enc else bytes)
         c.logfile_read = log
         pw = PatternWaiter()
-        pw.transport = FakeTransport()
 
         async def go():
+            # the order in which pexpect and the event loop set a protocol up
             pw.set_expecter(Expecter(c, searcher_string(['\x00\x00NEVER'] if enc else [b'\x00\x00NEVER']), -1))
+            pw.connection_made(FakeTransport())
             for pc in pieces:
                 if pc:
                     pw.data_received(pc)
@@ -268,6 +269,60 @@ def run_async_loop(pieces, enc, errors, use_expect):
             pass
 
 
+def run_mixed_loop(pieces, enc, errors, use_expect):
+    """one object read alternately through the asyncio protocol and through the blocking path: the hand-over
+    may fall inside a character"""
+    r, w = os.pipe()
+    loop = asyncio.new_event_loop()
+    state = {'w': w}
+    c = None
+    try:
+        asyncio.set_event_loop(loop)
+        c = fdpexpect.fdspawn(r, encoding=enc, codec_errors=errors, timeout=5)
+        log = Log(str if enc else bytes)
+        c.logfile_read = log
+        never = ['\x00\x00NEVER'] if enc else [b'\x00\x00NEVER']
+        first_async = bool(use_expect)
+        k = 0
+        for pc in pieces:
+            if not pc:
+                continue
+            os.write(w, pc)
+            try:
+                if (k % 2 == 0) == first_async:
+                    loop.run_until_complete(c.expect_exact(never, async_=True, timeout=0.02))
+                else:
+                    c.expect_exact(never, timeout=0)
+            except TIMEOUT:
+                pass
+            k += 1
+        os.close(w)
+        state['w'] = None
+        try:
+            if (k % 2 == 0) == first_async:
+                loop.run_until_complete(c.expect_exact(never, async_=True, timeout=5))
+            else:
+                c.expect_exact(never, timeout=5)
+        except EOF:
+            pass
+        return c.before, log.value()
+    finally:
+        try:
+            if c is not None and c.async_pw_transport:
+                c.async_pw_transport[1].close()
+        except Exception:
+            pass
+        loop.run_until_complete(asyncio.sleep(0))
+        asyncio.set_event_loop(None)
+        loop.close()
+        if state['w'] is not None:
+            os.close(w)
+        try:
+            os.close(r)
+        except OSError:
+            pass
+
+
 def run_link(kind):
     def run(pieces, enc, errors, use_expect):
         L = Link(kind, encoding=enc, codec_errors=errors, timeout=10)
@@ -295,7 +350,7 @@ def run_link(kind):
     return run
 
 
-RUNNERS = {'fd': run_fd, 'socket': run_socket, 'async_direct': run_async_direct, 'async_loop': run_async_loop,
+RUNNERS = {'fd': run_fd, 'socket': run_socket, 'async_direct': run_async_direct, 'async_loop': run_async_loop, 'mixed_loop': run_mixed_loop,
            'pty': run_link('pty'), 'popen': run_link('popen')}
 
 
@@ -402,7 +457,7 @@ def run_shard(spec, acc):
             if spec['mode'] == 'rand':
                 tr = rng.choice(FAST)
             else:
-                tr = ['pty', 'popen', 'async_loop'][made % 3]
+                tr = ['pty', 'popen', 'async_loop', 'mixed_loop'][made % 4]
                 if tr == 'pty' and enc not in PTY_CODECS:
                     # spawn() encodes the command line with the instance
                     # encoding: only ASCII-compatible, BOM-less codecs can
